@@ -79,7 +79,9 @@ func (txn *Txn) rangeWrite(fn func(commitID uint64, chunk commit.Chunk, fill bit
 	lock := txn.owner.slock
 	txn.dirty.Range(func(x uint32) {
 		chunk := commit.Chunk(x)
+		verifYield("commit.before", txn, x)
 		commitID := commit.Next()
+		verifYield("commit.drawn", txn, x)
 		lock.Lock(uint(chunk))
 
 		// Compute the fill and set the last commit ID
@@ -91,5 +93,6 @@ func (txn *Txn) rangeWrite(fn func(commitID uint64, chunk commit.Chunk, fill bit
 		// Call the delegate
 		fn(commitID, chunk, fill)
 		lock.Unlock(uint(chunk))
+		verifYield("commit.after", txn, x)
 	})
 }
